@@ -292,7 +292,7 @@ Print Assumptions C07_inner_hc_error_no_state_change.
 (* non-vacuity: a machine whose program is "trap", an outer RAM with a read-write page 16 and a read-only page 17 *)
 Definition in_mem : memory :=
   {| m_pages := [(16, {| p_acc := AccRW; p_dat := [] |}); (17, {| p_acc := AccRO; p_dat := [] |})]; m_hp := 0; m_hl := 0 |}.
-Definition in_prog : prog := match deblob [0; 0; 1; 0; 1]%N with Some p => p | None => {| code := []; mask := []; jt_count := 0; jt_width := 0; jt := [] |} end.
+Definition in_prog : prog := {| code := [0]; mask := [true]; jt_count := 0; jt_width := 0; jt_bytes := [] |}.     (* trap *)
 Definition in_state (r7 r8 r9 r10 : Z) : istate :=
   {| o_regs := [1; 2; 3; 4; 5; 6; 7; r7; r8; r9; r10; 11; 12]; o_gas := 100; o_mem := in_mem;
      o_mach := [(0, {| mc_prog := in_prog; mc_mem := empty_mem; mc_pc := 0 |})] |}.
